@@ -318,3 +318,58 @@ func HarnessC12_Partitions() {
 	}
 	vfCover("c12-partitions-done")
 }
+
+func init() { vfRegister("HarnessC12_PartConsistency", HarnessC12_PartConsistency) }
+
+// HarnessC12_PartConsistency: adding one partition (in any state) to the
+// partition ring changes an identifier's shard by at most one added and one
+// removed partition.
+func HarnessC12_PartConsistency() {
+	np := 1 + vfChoice("nparts", vfParam("parts", 3))
+	d1 := NewPartitionRingDesc()
+	d2 := NewPartitionRingDesc()
+	var all []uint32
+	newTok := func(name string) uint32 {
+		tok := vfU32(name)
+		for _, t := range all {
+			vfAssume(t != tok)
+		}
+		all = append(all, tok)
+		return tok
+	}
+	for p := 0; p < np; p++ {
+		st := PartitionActive
+		if p == 0 {
+			st = []PartitionState{PartitionPending, PartitionActive, PartitionInactive}[vfChoice("pstate", 3)]
+		}
+		pd := PartitionDesc{Id: int32(p), Tokens: []uint32{newTok("ptok")}, State: st, StateTimestamp: 10}
+		d1.Partitions[int32(p)] = pd
+		d2.Partitions[int32(p)] = pd
+	}
+	xst := []PartitionState{PartitionPending, PartitionActive, PartitionInactive}[vfChoice("xstate", 3)]
+	d2.Partitions[int32(np)] = PartitionDesc{Id: int32(np), Tokens: []uint32{newTok("xtok")}, State: xst, StateTimestamp: 10}
+	r1, err1 := NewPartitionRing(*d1)
+	r2, err2 := NewPartitionRing(*d2)
+	vfAssert(err1 == nil && err2 == nil, "C12 partition rings build")
+	tenant := vfTenants[vfChoice("tenant", vfParam("tenants", 1))]
+	size := 1 + vfChoice("size", np+1)
+	a, e1 := r1.ShuffleShard(tenant, size)
+	b, e2 := r2.ShuffleShard(tenant, size)
+	vfAssert(e1 == nil && e2 == nil, "C12 partition shards are computed")
+	s1, s2 := vfPartMembers(a), vfPartMembers(b)
+	added, removed := 0, 0
+	for id := range s2 {
+		if _, ok := s1[id]; !ok {
+			added++
+		}
+	}
+	for id := range s1 {
+		if _, ok := s2[id]; !ok {
+			removed++
+		}
+	}
+	vfObserve("added", added)
+	vfObserve("removed", removed)
+	vfAssert(added <= 1 && removed <= 1, "C12 adding or removing one partition changes the partition shard by at most one partition")
+	vfCover("c12-part-consistency-done")
+}
